@@ -841,6 +841,68 @@ def _check_history(b, history, mode):
     return res
 
 
+@scenario("handle_connect.target_rewritten_in_hook", functions=[HS + ".handle_connect", HS + ".handle_connect_regular", HS + ".handle_connect_upstream", HS + ".handle_connect_finish",
+                                                              HS + ".check_killed"])
+def s_handle_connect_target(vc):
+    """CONNECT: the tunnel's destination is the request's (host, port) *at the time it is forwarded*, i.e. after the http_connect hook in
+    which an addon may rewrite it: context.server.address after the hook == the rewritten destination; the eager OpenConnection (regular mode)
+    is for that address; the upstream-proxy layer (upstream mode, writes `CONNECT host:port` from conn.address) is built on a connection that
+    carries it."""
+    from props import httpstream as B
+    from mitmproxy.proxy.layers.http import HTTPMode
+    from mitmproxy.proxy.layer import NextLayer as NL
+    mode = vc.case("mode", ["regular", "upstream"])
+    rewrite = vc.case("addon_rewrites_target", [True, False])
+    strategy = vc.case("connection_strategy", ["eager", "lazy"])
+    host0, port0 = vc.sym_str("orig_host"), vc.sym_int("orig_port", lo=0, hi=65535)
+    host1, port1 = vc.sym_str("new_host"), vc.sym_int("new_port", lo=0, hi=65535)
+    req = B.mk_request(vc, method=b"CONNECT", host=host0, port=port0, authority=b"orig.example:443")
+    st, flow, client, server = B.mk_stream(vc, "state_wait_for_request_headers", "state_uninitialized", request=req,
+                                           mode=HTTPMode.regular if mode == "regular" else HTTPMode.upstream, connection_strategy=strategy, server_open=False)
+    server.address = None
+    server.via = ("http", ("proxy.example", 3128)) if mode == "upstream" else None
+    seen = {}
+
+    def mk_child(v, ctx):
+        return v.new(NL, context=ctx, layer=None, events=v.list([]), _ask_on_start=False, _handle=None, debug=None, _paused=None, _paused_event_queue=v.deque([]))
+
+    vc.summary("mitmproxy.proxy.layer:NextLayer", lambda v, ctx, *a, **k: mk_child(v, ctx))
+
+    def upstream_make(v, *a):
+        ctx = a[-2]                      # (cls, ctx, send_connect) symbolically, (ctx, send_connect) natively
+        seen["upstream_conn"] = ctx.server
+        seen["upstream_address"] = ctx.server.address
+        return v.list([mk_child(v, ctx)])
+
+    vc.summary("mitmproxy.proxy.layers.http._upstream_proxy:HttpUpstreamProxy.make", upstream_make)
+    vc.summary("mitmproxy.proxy.layer:Layer.handle_event", lambda v, self_, e: v.gen([v.ghost("child_event", self_, e)]))
+    opened = []
+
+    def on_yield(cmd):
+        if is_cmd(cmd, "HttpConnectHook") and rewrite:
+            cmd.flow.request.data.host = host1
+            cmd.flow.request.data.port = port1
+        if is_cmd(cmd, "OpenConnection"):
+            opened.append((cmd.connection, cmd.connection.address))
+        return None
+
+    out = vc.call(HS + ".handle_connect", st, on_yield=on_yield)
+    vc.ensure("no_exception", out.ok)
+    if not out.ok:
+        return
+    want = vc.lift((host1, port1) if rewrite else (host0, port0))
+    vc.ensure("destination_is_the_request_target_after_the_hook", vc.eq(st.context.server.address, want))
+    vc.ensure("same_connection_object", st.context.server is server)
+    if mode == "regular":
+        vc.ensure("eager_open_iff_strategy", len(opened) == (1 if strategy == "eager" else 0))
+        if opened:
+            vc.ensure("eager_open_goes_to_the_rewritten_target", And(opened[0][0] is server, vc.eq(opened[0][1], want)))
+    else:
+        vc.ensure("upstream_proxy_layer_built", "upstream_conn" in seen)
+        if "upstream_conn" in seen:
+            vc.ensure("upstream_connect_names_the_rewritten_target", And(seen["upstream_conn"] is server, vc.eq(seen["upstream_address"], want)))
+
+
 def bounded(tier, seed):
     import itertools, random
     b = Bounded()
